@@ -232,3 +232,8 @@ def run(ctx, fb, cfg):
     import C02
 
     C02.check_run(ctx, lib, R + "K3K6.constraint-run")
+    # which of two overlapping disequalities survives normalisation must not depend on posting order
+    C02.check_normalize(ctx, lib, R + "K6.normalize")
+    if "clpfd" in FEATURES_OF.get(cfg, {"clpfd"}):
+        # a binary-searched list of seen values must stay sorted whatever order the values arrive in
+        fdrules.check_sorted_search(ctx, lib, R + "K2.sorted-search")
